@@ -5,6 +5,7 @@ Proofs of the tie between the generated AIGER token model (`Gen/AigerTokenGen.le
 import Flussab.Gen.AigerTokenGen
 import Flussab.Model.AigerToken
 import Flussab.Proof.PMHoare
+import Flussab.Proof.TieLineReader
 
 namespace Flussab
 namespace TieAigerTokenAux
@@ -81,6 +82,125 @@ theorem requiredNewlineOrSpace_eq : requiredNewlineOrSpace = Aiger.requiredNewli
         have e2 : (b == 32) = false := by simpa using h2
         simp [e, e2]
 
+/-! ### `binary_uint` (the variable-length integers of the binary format) -/
+
+section BinaryUint
+open TieLineReaderAux
+
+
+/-- What `give_up` throws and the state it leaves (the parked I/O error is taken). -/
+def giveUpOut (lr : LR) : PErr × LR :=
+  (if lr.v.ioErr then PErr.io
+   else if lr.v.pos < lr.lineStart then PErr.panic "column underflow (position before line start)"
+   else PErr.syn lr.line (lr.v.pos - lr.lineStart + 1),
+   { lr with v := { lr.v with ioErr := false } })
+
+theorem giveUp_apply {β : Type} (lr : LR) : (PM.giveUp : PM β) lr = (.error (giveUpOut lr).1, (giveUpOut lr).2) := by
+  unfold PM.giveUp
+  simp only [PM.bind_apply, PM.position, get_apply, pure_apply]
+  exact giveUpAt_apply lr.v.pos lr
+
+/-- `unexpected` always throws; outcome and state do not depend on the result type. -/
+def unexpectedOut (lr : LR) : PErr × LR :=
+  let p := Text.newline lr.v 0
+  let lr1 := { lr with v := p.2 }
+  if p.1 != 0 then giveUpOut lr1
+  else if lr1.v.isAtEnd then giveUpOut lr1
+  else giveUpOut { lr1 with v := lr1.v.demand (min (Aiger.unexpectedLen lr1.v.rest 0) 59) }
+
+theorem unexpected_apply {β : Type} (lr : LR) :
+    (Aiger.unexpected : PM β) lr = (.error (unexpectedOut lr).1, (unexpectedOut lr).2) := by
+  unfold Aiger.unexpected unexpectedOut
+  have hs : ∀ (lr : LR), (PM.scan (fun x => Text.newline x 0) : PM Nat) lr =
+      (.ok (Text.newline lr.v 0).1, { lr with v := (Text.newline lr.v 0).2 }) := fun _ => rfl
+  simp only [PM.bind_apply, hs, get_apply]
+  by_cases h1 : ((Text.newline lr.v 0).1 != 0) = true
+  · simp only [h1, if_true, giveUp_apply]
+  · simp only [h1, Bool.false_eq_true, if_false]
+    have hg : ∀ (x : LR), (get : PM LR) x = (.ok x, x) := fun _ => rfl
+    by_cases h2 : (Text.newline lr.v 0).2.isAtEnd = true
+    · rw [PM.bind_apply, hg]
+      simp only [h2, if_true, giveUp_apply]
+    · rw [PM.bind_apply, hg]
+      simp only [h2, Bool.false_eq_true, if_false]
+      rw [PM.bind_apply, hg]
+      simp only [PM.bind_apply, PM.reqAt_apply, giveUp_apply]
+
+
+def lenRes (r : Except PErr Nat × LR) : Except PErr (Ctl Nat Nat) × LR :=
+  match r with
+  | (.ok n, lr) => (.ok (Ctl.brk n), lr)
+  | (.error e, lr) => (.error e, lr)
+
+/-- First loop of `binary_uint` = the model's `binaryUintLen`, for every fuel that cannot run out
+(`n + fuel ≥ 11`: the test `byte_len == 10` ends the loop first). -/
+theorem loop1_eq (fuel : Nat) : ∀ (n : Nat) (lr : LR), n + fuel ≥ 11 → n ≤ 9 →
+    binaryUint.loop1 fuel n lr = lenRes (Aiger.binaryUintLen fuel n lr) := by
+  induction fuel with
+  | zero => intro n lr h1 h2; omega
+  | succ fuel ih =>
+    intro n lr h1 h2
+    rw [binaryUint.loop1, Aiger.binaryUintLen]
+    simp only [PM.bind_apply, PM.reqAt_apply]
+    rcases lr.v.rest[n]? with _ | byte
+    · simp only
+      rw [PM.bind_apply, unexpected_apply, unexpected_apply]
+      rfl
+    · simp only
+      by_cases hb : (byte &&& 128 == 0) = true
+      · simp only [hb, if_true, lenRes, pure_apply]
+      · simp only [hb, Bool.false_eq_true, if_false]
+        by_cases h10 : (n + 1 == 10) = true
+        · have e : (n + 1 == (64 + 6) / 7) = true := h10
+          simp only [e, h10, if_true, PM.bind_apply, giveUp_apply, lenRes]
+        · have e : (n + 1 == (64 + 6) / 7) = false := by simpa using h10
+          have hn : n + 1 ≠ 10 := by simpa using h10
+          simp only [e, h10, Bool.false_eq_true, if_false, PM.bind_apply, pure_apply]
+          exact ih (n + 1) _ (by omega) (by omega)
+
+
+/-- Second loop (`for byte in buf()[..byte_len].iter().rev()`) = the model's `binaryUintValue`. -/
+theorem loop2_eq (bl : Nat) : ∀ (bs : List UInt8) (i value : Nat) (lr : LR),
+    binaryUint.loop2 bl bs i value lr =
+      match Aiger.binaryUintValue bs value with
+      | some v => (.ok (Ctl.brk v), lr)
+      | none => (.error (giveUpOut lr).1, (giveUpOut lr).2) := by
+  intro bs
+  induction bs with
+  | nil => intro i value lr; rfl
+  | cons byte rest ih =>
+    intro i value lr
+    rw [binaryUint.loop2, Aiger.binaryUintValue]
+    have e7 : (2 : Nat) ^ 7 = 128 := by decide
+    simp only [e7]
+    by_cases h : (value * 128 % 2 ^ 64 / 128 != value) = true
+    · simp only [h, if_true, PM.bind_apply, giveUp_apply]
+    · simp only [h, Bool.false_eq_true, if_false, PM.bind_apply, pure_apply]
+      exact ih _ _ lr
+
+theorem binaryUint_eq : binaryUint = Aiger.binaryUint := by
+  funext lr
+  unfold binaryUint Aiger.binaryUint
+  simp only [PM.bind_apply]
+  rw [loop1_eq 11 0 lr (by omega) (by omega)]
+  rcases hl : Aiger.binaryUintLen 11 0 lr with ⟨r, lr1⟩
+  cases r with
+  | error e => simp [lenRes]
+  | ok n =>
+    simp only [lenRes, pure_apply, PM.bind_apply]
+    rcases hb : PM.bufPrefix n lr1 with ⟨rb, lr2⟩
+    cases rb with
+    | error e => rfl
+    | ok bs =>
+      simp only
+      rw [loop2_eq]
+      cases hv : Aiger.binaryUintValue bs.reverse 0 with
+      | none => simp only [giveUp_apply]
+      | some v =>
+        simp only [pure_apply, PM.bind_apply]
+
+end BinaryUint
+
 theorem deltaCodeErr_eq (code delta : Nat) (a b : Unit) : deltaCodeErr code delta a b = Aiger.errorAtMark := rfl
 
 theorem notAssigning_eq {α : Type} (v : Nat) (a b : Unit) : (notAssigning v a b : PM α) = Aiger.errorAtMark := by
@@ -91,7 +211,7 @@ theorem invalidInitialization_eq {α : Type} (f l : Nat) : (invalidInitializatio
 
 theorem deltaCode_eq (code : Nat) (a b : Unit) : deltaCode code a b = Aiger.deltaCode code := by
   unfold deltaCode Aiger.deltaCode
-  simp only [deltaCodeErr_eq]
+  simp only [deltaCodeErr_eq, binaryUint_eq]
   congr 1
   funext u
   congr 1
